@@ -24,3 +24,17 @@ def run(ctx):
     _sched.validate(ctx, progs, "random histories with repeated / extreme priorities")
     from .. import suite
     suite.run(ctx, ["sched"])
+    if not q:
+        # unbounded priorities: Apalache discharges the inductive step of the insertion algorithm for every queue of <= 6 systems
+        # with ARBITRARY integer priorities (a statement about the specification, in addition to TLC's bounded exploration)
+        import os
+        from .. import tlc
+        mod = os.path.join(tlc.SPEC, "apalache", "SchedulerInd.tla")
+        ok = tlc.apalache_inductive(mod)
+        neg = tlc.apalache_inductive(mod, mutate=[("~(p > queue[i].prio)", "~(p >= queue[i].prio)"),
+                                                 ("(k <= Len(queue) => p > queue[k].prio)", "(k <= Len(queue) => p >= queue[k].prio)")])
+        if ok != "NoError" or neg != "Error":
+            raise tlc.MachineryError(f"Apalache inductive check: {ok} (expected NoError), negative control: {neg} (expected Error)")
+        ctx.extra["apalache_inductive_invariant"] = {"module": "spec/apalache/SchedulerInd.tla", "outcome": ok,
+                                                     "negative_control_geq": neg, "bound": "queues of <= 6 systems, priorities: all integers"}
+        ctx.controls.append("Apalache: IndInit => Inv and Inv /\\ Next => Inv' hold for arbitrary integer priorities; the >= variant is refuted")
